@@ -53,7 +53,27 @@ func EdgeFacts(fn *ssa.Function, atoms ...*Atom) []EdgeFact {
 		if !ok {
 			continue
 		}
+		out = append(out, blockFacts(b, iff, atoms)...)
+	}
+	return out
+}
+
+// blockFacts: the facts asserted by the two edges leaving the If that ends block b.
+func blockFacts(b *ssa.BasicBlock, iff *ssa.If, atoms []*Atom) []EdgeFact {
+	var out []EdgeFact
+	{
 		cond, neg := StripNot(iff.Cond)
+		{
+			ec, restore := ExpandCond(cond)
+			if ec != cond {
+				c2, n2 := StripNot(ec)
+				cond = c2
+				if n2 {
+					neg = !neg
+				}
+			}
+			defer restore()
+		}
 		for _, a := range atoms {
 			onT, onF := a.Match(cond)
 			if neg {
@@ -218,52 +238,68 @@ func edgeFactsX(fn *ssa.Function, atoms ...*Atom) ([]EdgeFact, []disjFact) {
 		if !ok {
 			continue
 		}
-		cond, neg := StripNot(iff.Cond)
-		parts, and, ok := shortCircuit(cond)
-		if !ok {
-			continue
+		fs, d := blockShortCircuit(b, iff, atoms)
+		out = append(out, fs...)
+		if d != nil {
+			dis = append(dis, *d)
 		}
-		// the edge on which ALL operands are known, and the edge that only gives a disjunction
-		allEdge, disEdge := b.Succs[0], b.Succs[1] // AND: true edge = all true; false edge = some false
-		allVal := true
-		if !and {
-			allEdge, disEdge = b.Succs[1], b.Succs[0] // OR: false edge = all false; true edge = some true
-			allVal = false
-		}
-		if neg {
-			allEdge, disEdge = disEdge, allEdge
-		}
-		d := disjFact{E: Edge{b, disEdge}}
-		for _, part := range parts {
-			pc, pneg := StripNot(part)
-			var members []EdgeFact
-			for _, a := range atoms {
-				onT, onF := a.Match(pc)
-				if pneg {
-					onT, onF = onF, onT
-				}
-				// operand == allVal on allEdge
-				v := onT
-				if !allVal {
-					v = onF
-				}
-				if v != 0 {
-					out = append(out, EdgeFact{Edge{b, allEdge}, a, v > 0})
-				}
-				// operand == !allVal is one disjunct on disEdge
-				w := onF
-				if !allVal {
-					w = onT
-				}
-				if w != 0 {
-					members = append(members, EdgeFact{Edge{b, disEdge}, a, w > 0})
-				}
-			}
-			d.Members = append(d.Members, members)
-		}
-		dis = append(dis, d)
 	}
 	return out, dis
+}
+
+func blockShortCircuit(b *ssa.BasicBlock, iff *ssa.If, atoms []*Atom) ([]EdgeFact, *disjFact) {
+	var out []EdgeFact
+	cond, neg := StripNot(iff.Cond)
+	ec, restore := ExpandCond(cond)
+	defer restore()
+	if ec != cond {
+		c2, n2 := StripNot(ec)
+		cond = c2
+		if n2 {
+			neg = !neg
+		}
+	}
+	parts, and, ok := shortCircuit(cond)
+	if !ok {
+		return nil, nil
+	}
+	// the edge on which ALL operands are known, and the edge that only gives a disjunction
+	allEdge, disEdge := b.Succs[0], b.Succs[1] // AND: true edge = all true; false edge = some false
+	allVal := true
+	if !and {
+		allEdge, disEdge = b.Succs[1], b.Succs[0] // OR: false edge = all false; true edge = some true
+		allVal = false
+	}
+	if neg {
+		allEdge, disEdge = disEdge, allEdge
+	}
+	d := disjFact{E: Edge{b, disEdge}}
+	for _, part := range parts {
+		pc, pneg := StripNot(part)
+		var members []EdgeFact
+		for _, a := range atoms {
+			onT, onF := a.Match(pc)
+			if pneg {
+				onT, onF = onF, onT
+			}
+			v := onT
+			if !allVal {
+				v = onF
+			}
+			if v != 0 {
+				out = append(out, EdgeFact{Edge{b, allEdge}, a, v > 0})
+			}
+			w := onF
+			if !allVal {
+				w = onT
+			}
+			if w != 0 {
+				members = append(members, EdgeFact{Edge{b, disEdge}, a, w > 0})
+			}
+		}
+		d.Members = append(d.Members, members)
+	}
+	return out, &d
 }
 
 // GateResult is the outcome of a gate check.
